@@ -105,13 +105,25 @@ func New(ctx context.Context, log *slog.Logger, opts ...Opt) (*Engine, error) {
 	// with the finalization for before the initial height (i.e. from initializing the chain).
 	e.mCfg.InitialValidatorSet = smCfg.Genesis.ValidatorSet
 	if e.mCfg.InitialValidatorSet.Validators == nil {
-		_, _, e.mCfg.InitialValidatorSet, _, err = smCfg.FinalizationStore.LoadFinalizationByHeight(
+		var initAppStateHash string
+		_, _, e.mCfg.InitialValidatorSet, initAppStateHash, err = smCfg.FinalizationStore.LoadFinalizationByHeight(
 			ctx, e.genesis.InitialHeight-1,
 		)
 		if err != nil {
 			return nil, fmt.Errorf(
 				"failed to load initial validator set from finalization store: %w", err,
 			)
+		}
+
+		// The chain was initialized in an earlier run.
+		// The state machine still needs the genesis values it would have received from InitChain:
+		// with a zero genesis it cannot tell that it is restarting at the initial height
+		// (or the one after), and it stops while looking for finalizations before the initial height.
+		smCfg.Genesis = tmconsensus.Genesis{
+			ChainID:             e.genesis.ChainID,
+			InitialHeight:       e.genesis.InitialHeight,
+			CurrentAppStateHash: []byte(initAppStateHash),
+			ValidatorSet:        e.mCfg.InitialValidatorSet,
 		}
 	}
 
